@@ -61,6 +61,7 @@ DRIVERS = {
     "auth_light": lambda rng, tier: gen.gen_auth(rng, T(tier, 4, 30), sweep_stride=T(tier, 8, 3)),
     "valid": lambda rng, tier: gen.gen_valid(rng, T(tier, 120, 1500), full_every=T(tier, 3, 3)),
     "struct": lambda rng, tier: gen.gen_struct(rng, T(tier, 80, 800)),
+    "struct_light": lambda rng, tier: gen.gen_struct(rng, T(tier, 10, 100)),
     "prefix": lambda rng, tier: gen.gen_prefix(rng, T(tier, 60, 500)),
     "text": lambda rng, tier: gen.gen_text(rng, T(tier, 60, 500)) + gen.gen_text_stale(rng, T(tier, 60, 600)),
     "hist": lambda rng, tier: gen.gen_hist(rng, T(tier, 160, 2400), length=T(tier, (8, 30), (10, 60))),
@@ -89,7 +90,7 @@ CHECKS = {
     "C02": {"drivers": ["struct", "valid"], "models": ["gen_secp", "gen_ed", "rlp"]},
     "C03": {"drivers": ["hist_full", "auth_light", "struct", "text", "prefix", "typed_b", "nodeid", "keys", "api", "huge"], "models": ["hist_k256", "gen_ed"]},
     "C04": {"drivers": ["valid", "struct", "hist_full", "size_full", "auth_light", "fail"], "models": ["gen_secp", "rlp"]},
-    "C05": {"drivers": ["hist", "hist_long", "size", "fail"], "models": ["hist_k256", "hist_ed", "hist_comb_secp", "hist_comb_ed", "build_ed"], "models_thorough": ["hist_sim"]},
+    "C05": {"drivers": ["hist", "hist_long", "size", "fail", "struct_light"], "models": ["hist_k256", "hist_ed", "hist_comb_secp", "hist_comb_ed", "build_ed"], "models_thorough": ["hist_sim"]},
     "C06": {"drivers": ["hist", "size", "seq", "fail"], "models": ["hist_k256", "hist_comb_secp"]},
     "C07": {"drivers": ["seq", "hist"], "models": ["hist_k256"]},
     "C08": {"drivers": ["hist", "hist_long", "seq", "size", "fail"], "models": ["hist_k256", "build_k256"]},
